@@ -710,7 +710,7 @@ def run(ctx, scratch):
         string_counts = {i: b[1] for (i, _, _), b in zip(chosen, both)}
         with_model = [(i, svg, skel) for (i, svg, skel) in chosen if skel is not None]
         models = coq_eval('c20model', COQ_IMPORTS, [model_expr(cases[i][3]) for (i, _, _) in with_model],
-                          prelude=PRELUDE, shard=2)   # small shards: coq_eval reads a shard's output through one 64 KB pipe
+                          prelude=PRELUDE, shard=20)
         model_of = {i: m for (i, _, _), m in zip(with_model, models)}
         for (i, svg, skel), ok in zip(chosen, verdicts):
             entry, fam, args, meta = cases[i]
